@@ -6,15 +6,16 @@
    scanner will still deliver), (S1-S8) the SCANNER model over the character-level input [str_ops], for ANY scanner
    state of a stated shape, (B) the bridge: statements about whole TEXTS through [run_str] = scanner then parser.
    The full property -- every ill-formed character stream is rejected by the pipeline -- is [C06_full]; it is stated,
-   NOT proved, and in fact refuted for the faithful model (and the code) by two classes of accepted ill-formed texts
-   ([C06_full_refuted], [C06_full_for_refuted]; known_findings_c06.jsonl: implicit key longer than 1024 characters in a flow
-   sequence, flow continuation line at the block indentation).  Two further classes recorded earlier were repaired in
-   /repo (c5ad60c, ad74b3e) and are now PROVED rejected ([C06_accepted_implies_balanced] is the clean statement,
-   [C06_stray_closer_after_empty_key_rejected], [C06_multiline_flow_pair_key_rejected...]).  What is proved are the rejection
-   mechanisms listed below. *)
+   NOT proved, and in fact refuted for the faithful model (and the code) by ONE class of accepted ill-formed texts
+   ([C06_full_refuted], [C06_full_for_refuted]; known_findings_c06.jsonl: flow continuation line at the block indentation).
+   Three further classes recorded earlier were repaired in /repo (c5ad60c, ad74b3e, 57aa316) and are now PROVED rejected
+   ([C06_accepted_implies_balanced] is the clean statement, [C06_stray_closer_after_empty_key_rejected],
+   [C06_multiline_flow_pair_key_rejected...], [C06_long_flow_pair_key_rejected...]).  /repo 88700d3 (a flow closer of the
+   wrong kind is a scan error) and 99c201b (block nesting limit) added two rejection mechanisms to the scanner: S10, S4.
+   What is proved are the rejection mechanisms listed below. *)
 From Coq Require Import List NArith ZArith Bool.
 Import ListNotations.
-Require Import Parser SBase SPrim SDir SScalar SFetch Pipe SInv C02base C02run DocReset RejectProofs RejectScan.
+Require Import Parser SBase SPrim SDir SScalar SFetch Pipe SInv C02base C02run DocReset RejectProofs RejectScan RejectFlow RejectReach.
 Open Scope N_scope.
 
 (* ================================================================================================ *)
@@ -114,6 +115,36 @@ Theorem C06_reach_after_stream_start : forall l,
   reach (scan_fuel l) 1 (init_sc {| si_chars := l; si_look := 0 |}) (after_stream_start l).
 Proof. exact reach_after_stream_start. Qed.
 Print Assumptions C06_reach_after_stream_start.
+
+(* one level down: the iterator refills its queue in ROUNDS (one fetch each) while the queue is empty or a possible key
+   candidate waits at its head ([need_more] is that test, [rounds F k s s'] = k successful rounds).  For ANY state between two
+   tokens: if after k rounds another round is needed and its fetch fails, the call of the iterator fails with that error ... *)
+Theorem C06_round_fetch_error_is_scan_error : forall F n (s s' s1 : sc strin) e m,
+  sc_stream_end s = false -> sc_token_available s = false ->
+  rounds F n s s' -> need_more s' = Ok (true, s1) -> fetch_next_token str_ops F s1 = Err e m -> (n < F)%nat ->
+  next_token str_ops F s = Err e m.
+Proof. exact round_fetch_error_is_scan_error. Qed.
+Print Assumptions C06_round_fetch_error_is_scan_error.
+
+(* ... so every state-level theorem about [fetch_next_token] rejects the whole text in which its situation arises, between
+   two tokens or in the middle of a refill (e.g. the wrong closer of "[ a }": the '[' is still a key candidate) *)
+Theorem C06_reachable_round_error_rejected : forall l n k (s s' s1 : sc strin) e m,
+  reach (scan_fuel l) n (init_sc {| si_chars := l; si_look := 0 |}) s ->
+  (n < 4 * scan_fuel l + 20)%nat ->
+  sc_stream_end s = false -> sc_token_available s = false ->
+  rounds (scan_fuel l) k s s' -> (k < scan_fuel l)%nat ->
+  need_more s' = Ok (true, s1) -> fetch_next_token str_ops (scan_fuel l) s1 = Err e m ->
+  snd (run_str l) <> PDone.
+Proof. exact reachable_round_error_rejected. Qed.
+Print Assumptions C06_reachable_round_error_rejected.
+
+(* the refill loop, one round unfolded *)
+Theorem C06_fetch_more_tokens_round : forall F f,
+  fetch_more_tokens str_ops F (S f)
+  = bind need_more (fun need => if need then bind (fetch_next_token str_ops F) (fun _ => fetch_more_tokens str_ops F f)
+                                else modify (set_ta true)).
+Proof. exact fetch_more_tokens_unfold. Qed.
+Print Assumptions C06_fetch_more_tokens_round.
 
 (* /repo c5ad60c, positive form: behind an empty explicit key inside a flow sequence the token the parser looks at (Value,
    FlowEntry or the closing FlowSequenceEnd) is NOT consumed ... *)
@@ -326,7 +357,7 @@ Print Assumptions C06_hex_escape_non_scalar_rejected.
 (* What the model (like the code) guarantees: a possible key candidate is STALE iff the scanner is in BLOCK context
    (flow level 0) and the candidate began on an earlier line or more than 1024 characters ago; a stale REQUIRED
    candidate is an error (site 44), all other stale candidates are invalidated, nothing else changes; in flow
-   context nothing is ever invalidated (see the refutation below). *)
+   context nothing is ever invalidated here (the limits of a flow-sequence pair key are enforced at its ':', see S9). *)
 Theorem C06_key_longer_than_limit_is_stale : forall (s : sc strin) k,
   sk_possible k = true -> sc_flow_level s = 0 -> m_index (sk_mark k) + 1024 < m_index (sc_mark s) ->
   stale_key s k = true.
@@ -388,11 +419,32 @@ Print Assumptions C06_flow_level_below_limit_increases.
 Theorem C06_deeper_column_starts_collection : forall (s : sc strin) col tk mk,
   sc_flow_level s = 0 -> (sc_indent s < Z.of_N col)%Z ->
   (forall i r, sc_indents s = i :: r -> in_needs_block_end i = true) ->
+  N.of_nat (length (sc_indents s)) < BLOCK_NESTING_MAX ->
   roll_indent col None tk mk s
   = Ok (tt, set_tokens (sc_tokens s ++ [(span_empty mk, tk)])
               (set_indent (Z.of_N col) ({| in_indent := sc_indent s; in_needs_block_end := true |} :: sc_indents s) s)).
 Proof. exact roll_indent_deeper_starts_collection. Qed.
 Print Assumptions C06_deeper_column_starts_collection.
+
+(* ... unless BLOCK_NESTING_MAX (255, generated from the Rust constant) collections are open already (/repo 99c201b): then a
+   deeper key / entry is the scan error "recursion limit exceeded" (site 46) at the current mark -- "- - - ...", "? ? ? ...",
+   "a:" NL " a:" NL "  a:" ... deeper than 255 are rejected.  [effective_indents s col] is the indentation stack once the
+   one-column indent behind ':' / '-' that the new column reaches has been dropped. *)
+Theorem C06_block_nesting_limit_rejected : forall (s : sc strin) col number tk mk,
+  sc_flow_level s = 0 ->
+  (fst (effective_indents s col) < Z.of_N col)%Z ->
+  BLOCK_NESTING_MAX <= N.of_nat (length (snd (effective_indents s col))) ->
+  roll_indent col number tk mk s = Err 46 (sc_mark s).
+Proof. exact block_nesting_limit_rejected. Qed.
+Print Assumptions C06_block_nesting_limit_rejected.
+
+Theorem C06_block_nesting_limit_plain_rejected : forall (s : sc strin) col number tk mk,
+  sc_flow_level s = 0 -> (sc_indent s < Z.of_N col)%Z ->
+  (forall i r, sc_indents s = i :: r -> in_needs_block_end i = true) ->
+  (255 <= length (sc_indents s))%nat ->
+  roll_indent col number tk mk s = Err 46 (sc_mark s).
+Proof. exact block_nesting_limit_plain_rejected. Qed.
+Print Assumptions C06_block_nesting_limit_plain_rejected.
 
 (* ... parser half, ANY token stream: where a block mapping expects its next key (or BlockEnd) every other token -- the
    Block*Start or scalar of the mis-indented line -- is site 5 at that token; where a block sequence expects its next
@@ -444,7 +496,7 @@ Print Assumptions C06_fetch_error_is_scan_error.
 (* ================================================================================================ *)
 (* ANY state in flow context whose next character starts a token in a column smaller than the indentation of the
    enclosing block collection: site 102 ("invalid indentation").  (Column EQUAL to the block indentation is the known
-   finding flow-continuation-at-block-indentation, see below.) *)
+   finding flow-continuation-at-block-indentation, see [C06_flow_continuation_at_block_indentation_accepted].) *)
 Theorem C06_flow_line_left_of_block_indentation_rejected : forall F (s : sc strin),
   let c := nth 0 (si_chars (sc_in s)) 0 in
   sc_stream_start s = true -> (0 < F)%nat ->
@@ -529,22 +581,99 @@ Proof. exact multiline_quoted_key_rejected. Qed.
 Print Assumptions C06_multiline_quoted_key_rejected.
 
 (* ================================================================================================ *)
-(* S9: an implicit key of a flow-sequence pair that spans lines (/repo ad74b3e)                       *)
+(* S9: an implicit key of a flow-sequence pair that spans lines (/repo ad74b3e) or is longer than      *)
+(*     1024 characters (/repo 57aa316)                                                                 *)
 (* ================================================================================================ *)
 (* ANY state at the ':' of "key: value": the innermost flow level is a flow sequence outside an explicit "? key" pair (top
-   of implicit_flow_mapping_states Possible or Inside) and the key candidate began on an earlier line: site 98
-   ("illegal placement of ':' indicator") -- independent of any flow mapping opened and closed earlier (the state is
-   kept per level; before ad74b3e one sticky flag made the check vanish once any '{' had been seen) *)
+   of implicit_flow_mapping_states Possible or Inside) and the key candidate began on an earlier line OR more than
+   SIMPLE_KEY_MAX (1024) characters before the ':': site 98 ("illegal placement of ':' indicator") at the ':' --
+   independent of any flow mapping opened and closed earlier (the state is kept per level; before ad74b3e one sticky flag
+   made the check vanish once any '{' had been seen) and independent of the flow level (before 57aa316 the length limit
+   only existed in block context: [ kkk...(1025): v ] was accepted).  [no_tab_behind_colon]: in block context the
+   character behind ':' is no tab (that is site 97); in flow context it is not even looked at (/repo b87c12b). *)
+Theorem C06_flow_pair_key_limit_rejected : forall F (s : sc strin) k r top rest,
+  sc_sks s = k :: r -> sk_possible k = true ->
+  sc_ifms s = top :: rest -> (top = ImPossible \/ top = ImInside) ->
+  (m_line (sk_mark k) < m_line (sc_mark s) \/ m_index (sk_mark k) + SIMPLE_KEY_MAX < m_index (sc_mark s)) ->
+  no_tab_behind_colon s ->
+  sc_tokens_parsed s <= sk_token_number k ->
+  (N.to_nat (sk_token_number k - sc_tokens_parsed s) <= length (sc_tokens s))%nat ->
+  fetch_value str_ops F s = Err 98 (sc_mark s).
+Proof. exact flow_pair_key_limit_rejected. Qed.
+Print Assumptions C06_flow_pair_key_limit_rejected.
+
 Theorem C06_multiline_flow_pair_key_rejected : forall F (s : sc strin) k r top rest,
   sc_sks s = k :: r -> sk_possible k = true ->
   sc_ifms s = top :: rest -> (top = ImPossible \/ top = ImInside) ->
   m_line (sk_mark k) < m_line (sc_mark s) ->
-  nth 0 (tl (si_chars (sc_in s))) 0 <> 9 ->
+  no_tab_behind_colon s ->
   sc_tokens_parsed s <= sk_token_number k ->
   (N.to_nat (sk_token_number k - sc_tokens_parsed s) <= length (sc_tokens s))%nat ->
   fetch_value str_ops F s = Err 98 (sc_mark s).
 Proof. exact multiline_flow_pair_key_rejected. Qed.
 Print Assumptions C06_multiline_flow_pair_key_rejected.
+
+Theorem C06_long_flow_pair_key_rejected : forall F (s : sc strin) k r top rest,
+  sc_sks s = k :: r -> sk_possible k = true ->
+  sc_ifms s = top :: rest -> (top = ImPossible \/ top = ImInside) ->
+  m_index (sk_mark k) + 1024 < m_index (sc_mark s) ->
+  no_tab_behind_colon s ->
+  sc_tokens_parsed s <= sk_token_number k ->
+  (N.to_nat (sk_token_number k - sc_tokens_parsed s) <= length (sc_tokens s))%nat ->
+  fetch_value str_ops F s = Err 98 (sc_mark s).
+Proof. exact long_flow_pair_key_rejected. Qed.
+Print Assumptions C06_long_flow_pair_key_rejected.
+
+(* ================================================================================================ *)
+(* S10: a flow collection closed by the bracket of the other kind (/repo 88700d3)                      *)
+(* ================================================================================================ *)
+(* ANY scanner state with a non-empty implicit_flow_mapping_states stack (one entry per open '[' or '{'): the check that
+   fetch_flow_collection_end runs first lets a closer pass iff it is of the kind of the innermost open collection ... *)
+Theorem C06_check_flow_closer_spec : forall (s : sc strin) seq top rest,
+  sc_ifms s = top :: rest ->
+  check_flow_closer seq s
+  = if Bool.eqb (is_mapping_level top) (negb seq) then Ok (tt, s)
+    else Err (if is_mapping_level top then 47 else 48) (sc_mark s).
+Proof. exact check_flow_closer_spec. Qed.
+Print Assumptions C06_check_flow_closer_spec.
+
+(* ... so ']' on an open '{' is site 47 ("while parsing a flow mapping, did not find expected ',' or '}'") and '}' on an open
+   '[' (whatever the state of its implicit pair) is site 48 ("while parsing a flow sequence, expected ',' or ']'"), a SCAN
+   error at the closer: nothing is popped, no token is queued.  (Before 88700d3 the scanner popped the level and left the
+   mismatch to the parser, which missed it behind an implicit pair: "[ : } ]" was accepted.) *)
+Theorem C06_mismatched_flow_closer_rejected : forall F (s : sc strin) (seq : bool) top rest,
+  sc_ifms s = top :: rest -> is_mapping_level top = seq ->
+  fetch_flow_collection_end str_ops F seq s = Err (if seq then 47 else 48) (sc_mark s).
+Proof. exact mismatched_flow_closer_rejected. Qed.
+Print Assumptions C06_mismatched_flow_closer_rejected.
+
+(* from [fetch_next_token]: ANY started state in flow context standing on the closer (not left of the block indentation:
+   that is S6), with a well-formed indentation stack *)
+Theorem C06_mismatched_flow_closer_fetch_rejected : forall F (s : sc strin) (seq : bool) top rest,
+  sc_stream_start s = true -> (0 < F)%nat ->
+  nth 0 (si_chars (sc_in s)) 0 = (if seq then 93 else 125) ->
+  sc_ifms s = top :: rest -> is_mapping_level top = seq ->
+  sc_flow_level s <> 0 ->
+  sorted_from (sc_indent s) (sc_indents s) = true ->
+  (sc_indent s <= Z.of_N (m_col (sc_mark s)))%Z ->
+  fetch_next_token str_ops F s = Err (if seq then 47 else 48) (sc_mark s).
+Proof. exact mismatched_flow_closer_fetch_rejected. Qed.
+Print Assumptions C06_mismatched_flow_closer_fetch_rejected.
+
+(* ================================================================================================ *)
+(* S11: block context: ':' separated from its value by tabs only                                       *)
+(* ================================================================================================ *)
+(* ANY state in block context at a ':' followed by one or more tabs (no space) and then '-' or a word character: site 97
+   ("':' must be followed by a valid YAML whitespace") at that character.  /repo b87c12b removed this test in FLOW context
+   only ({"a":<TAB>1} is accepted now); in block context the implementation's rule stands. *)
+Theorem C06_tab_after_colon_in_block_rejected : forall F (s : sc strin) k r ts c rest,
+  sc_sks s = k :: r -> sc_flow_level s = 0 ->
+  si_chars (sc_in s) = 58 :: 9 :: ts ++ c :: rest -> Forall (fun x => x = 9) ts ->
+  (c = 45 \/ is_alpha c = true) -> c <> 32 -> c <> 9 -> c <> 35 ->
+  (S (length ts) < F)%nat ->
+  fetch_value str_ops F s = Err 97 (adv (N.of_nat (S (length ts))) (adv 1 (sc_mark s))).
+Proof. exact tab_after_colon_in_block_rejected. Qed.
+Print Assumptions C06_tab_after_colon_in_block_rejected.
 
 (* ================================================================================================ *)
 (* T: text-level families -- a fixed first part, then ANY continuation of the stated shape             *)
@@ -577,23 +706,152 @@ Theorem C06_content_after_document_end_behind_scalar_rejected : forall b ws c re
 Proof. exact content_after_document_end_behind_scalar_rejected. Qed.
 Print Assumptions C06_content_after_document_end_behind_scalar_rejected.
 
+(* ---- a fixed first part that leads the scanner into an error, then ANY continuation: the tool ... ---- *)
+Theorem C06_text_prefix_rejected : forall pre n e m,
+  (n < 20)%nat ->
+  (forall rest F', exists s, reach (2 * length pre + 10 + F') n (init_sc {| si_chars := pre ++ rest; si_look := 0 |}) s
+                             /\ next_token str_ops (2 * length pre + 10 + F') s = Err e m) ->
+  forall rest, snd (run_str (pre ++ rest)) <> PDone.
+Proof. exact text_prefix_rejected. Qed.
+Print Assumptions C06_text_prefix_rejected.
+
+Theorem C06_text_prefix_scan_error_rejected : forall pre e m,
+  (forall rest F' G', snd (scan_all str_ops (2 * length pre + 10 + F') (4 * (2 * length pre + 10) + 20 + G')
+                             (init_sc {| si_chars := pre ++ rest; si_look := 0 |}) []) = SError e m) ->
+  forall rest, snd (run_str (pre ++ rest)) <> PDone.
+Proof. exact text_prefix_scan_error_rejected. Qed.
+Print Assumptions C06_text_prefix_scan_error_rejected.
+
+(* ... a flow collection closed by the bracket of the other kind (S10 at text level), in each state of
+   implicit_flow_mapping_states -- [wrong_closer_prefixes]: "[}" "{]" "[ a }" "{ a ]" "[ a: b }" "[ ? a }" "[ : }" "{ a: b ]"
+   "[ [ a }" "[ { a ]" "[a, b}" "{a: 1]" -- whatever follows the wrong closer ... *)
+Theorem C06_wrong_closer_text_rejected :
+  forall pre e m rest, In (pre, e, m) wrong_closer_prefixes -> snd (run_str (pre ++ rest)) <> PDone.
+Proof. exact wrong_closer_text_rejected. Qed.
+Print Assumptions C06_wrong_closer_text_rejected.
+
+(* ... as value of a block mapping "k: [ a }" and as entry of a block sequence "- { a ]" (the error arises several tokens
+   into the stream) ... *)
+Theorem C06_wrong_closer_in_block_value_rejected : forall rest,
+  snd (run_str ([107;58;32;91;32;97;32;125] ++ rest)) <> PDone
+  /\ snd (run_str ([45;32;123;32;97;32;93] ++ rest)) <> PDone.
+Proof. exact wrong_closer_in_block_value_rejected. Qed.
+Print Assumptions C06_wrong_closer_in_block_value_rejected.
+
+(* ... 256 nested block sequences "- - - ... " / explicit keys "? ? ? ... " on one line (S4's limit at text level, /repo
+   99c201b), whatever follows; 255 levels are accepted *)
+Theorem C06_deep_block_nesting_text_rejected : forall rest,
+  snd (run_str (dashes 256 ++ rest)) <> PDone /\ snd (run_str (question_marks 256 ++ rest)) <> PDone.
+Proof. exact deep_block_nesting_text_rejected. Qed.
+Print Assumptions C06_deep_block_nesting_text_rejected.
+
+Theorem C06_block_nesting_255_accepted : snd (run_str (dashes 255 ++ [97; 10])) = PDone.
+Proof. exact block_nesting_255_accepted. Qed.
+Print Assumptions C06_block_nesting_255_accepted.
+
+(* ---- the family of /repo 57aa316 (S9 at text level; Proofs/RejectFlow.v): EVERY text "[ " k ": " ... whose key k is a word
+        of more than 1024 lower-case letters is rejected -- the scan fails with site 98 at the ':' -- whatever follows.  The
+        word is symbolic: the proof runs the scanner model over it by induction (the chunk loop of scan_plain_scalar). ---- *)
+Theorem C06_long_flow_pair_key_family_rejected : forall k rest,
+  lower_word k -> (1024 < length k)%nat -> snd (run_str ([91; 32] ++ k ++ 58 :: 32 :: rest)) <> PDone.
+Proof. exact long_flow_pair_key_family_rejected. Qed.
+Print Assumptions C06_long_flow_pair_key_family_rejected.
+
+Theorem C06_long_flow_pair_key_scan_error : forall c w rest,
+  lower c -> Forall lower w -> (1024 <= length w)%nat ->
+  let l := [91; 32] ++ (c :: w) ++ 58 :: 32 :: rest in
+  next_token str_ops (scan_fuel l) (after_stream_start l)
+  = Err 98 {| m_index := 2 + N.of_nat (S (length w)); m_line := 1; m_col := 2 + N.of_nat (S (length w)) |}.
+Proof. exact long_flow_pair_key_scan_error. Qed.
+Print Assumptions C06_long_flow_pair_key_scan_error.
+
+(* ---- flat flow sequences of words, the number of words and every word symbolic (Proofs/RejectFlow.v: induction over the
+        words in ROUNDS of the iterator's refill; each word by induction over the chunk loop): EVERY text
+        "[" w1 ", " w2 ", " ... wn "}" ...  is rejected -- the '}' is scan error 48 ... ---- *)
+Theorem C06_flat_sequence_wrong_closer_rejected : forall c1 w1 ws rest,
+  lower c1 -> Forall lower w1 -> Forall lower_cw ws ->
+  snd (run_str (91 :: c1 :: w1 ++ flat_tail ws ++ 125 :: rest)) <> PDone.
+Proof. exact flat_sequence_wrong_closer_rejected. Qed.
+Print Assumptions C06_flat_sequence_wrong_closer_rejected.
+
+(* ================================================================================================ *)
+(* A: the state-level theorems S9 / S10 for EVERY state the scanner reaches on ANY text                 *)
+(* ================================================================================================ *)
+(* [fetch_point l s1]: in the scan of the text [l], the iterator delivered some tokens, ran some rounds of a refill and is
+   about to fetch in state [s1].  For such states the structural hypotheses of S9 / S10 (non-empty
+   implicit_flow_mapping_states, well-formed indentation stack, key candidate pointing into the queue, stream started) follow
+   from two invariants proved elsewhere for all reachable states (C15's DocScan.SkInv; the J / SInv' invariant of the no-panic
+   proof of the string back-end) -- Proofs/RejectReach.v.  Only the facts of the situation itself remain. *)
+Theorem C06_wrong_closer_anywhere_rejected : forall l s1 (seq : bool),
+  fetch_point l s1 ->
+  sc_flow_level s1 <> 0 ->
+  nth 0 (si_chars (sc_in s1)) 0 = (if seq then 93 else 125) ->
+  is_mapping_level (hd ImPossible (sc_ifms s1)) = seq ->
+  (sc_indent s1 <= Z.of_N (m_col (sc_mark s1)))%Z ->
+  snd (run_str l) <> PDone.
+Proof. exact wrong_closer_anywhere_rejected. Qed.
+Print Assumptions C06_wrong_closer_anywhere_rejected.
+
+Theorem C06_flow_pair_key_limit_anywhere_rejected : forall l s1 key r b rest,
+  fetch_point l s1 ->
+  sc_flow_level s1 <> 0 ->
+  si_chars (sc_in s1) = 58 :: b :: rest -> is_blank_or_breakz b = true ->
+  sc_sks s1 = key :: r -> sk_possible key = true ->
+  (hd ImMapping (sc_ifms s1) = ImPossible \/ hd ImMapping (sc_ifms s1) = ImInside) ->
+  (m_line (sk_mark key) < m_line (sc_mark s1) \/ m_index (sk_mark key) + SIMPLE_KEY_MAX < m_index (sc_mark s1)) ->
+  (sc_indent s1 <= Z.of_N (m_col (sc_mark s1)))%Z ->
+  snd (run_str l) <> PDone.
+Proof. exact flow_pair_key_limit_anywhere_rejected. Qed.
+Print Assumptions C06_flow_pair_key_limit_anywhere_rejected.
+
+(* a failing fetch at any fetch point rejects the text (the composition theorems above, packaged) *)
+Theorem C06_fetch_point_error_rejected : forall l s1 e m,
+  fetch_point l s1 -> fetch_next_token str_ops (scan_fuel l) s1 = Err e m -> snd (run_str l) <> PDone.
+Proof. exact fetch_point_error_rejected. Qed.
+Print Assumptions C06_fetch_point_error_rejected.
+
+(* not vacuous: in the scan of "[ a }" NL the state at the '}' is a fetch point in flow context with the sequence on top *)
+Theorem C06_wrong_closer_fetch_point_exists :
+  exists s1, fetch_point wrong_closer_example s1 /\ sc_flow_level s1 <> 0 /\ nth 0 (si_chars (sc_in s1)) 0 = 125
+             /\ is_mapping_level (hd ImPossible (sc_ifms s1)) = false
+             /\ (sc_indent s1 <= Z.of_N (m_col (sc_mark s1)))%Z.
+Proof. exact wrong_closer_fetch_point. Qed.
+Print Assumptions C06_wrong_closer_fetch_point_exists.
+
 (* ================================================================================================ *)
 (* The full property and its status                                                                    *)
 (* ================================================================================================ *)
 (* The full property as a closed statement: [damaged] (Proofs/RejectProofs.v) composes a renderer of well-formed one-line
    flow documents ([render_flow] on [wf_ok] trees: lower-case words, quoted words, sequences, mappings, empty explicit
-   keys) with four damage operators (stray closer, dropped closer, swapped closer, second root node); [damaged_known]
-   adds the two operators of the recorded findings (a flow-sequence pair whose key is longer than 1024 characters; a flow
-   continuation line at the column of the enclosing block key).  Every such text is ill-formed by construction.
-   NOT proved; refuted below ([C06_full_refuted]) by [damaged_known].  The general form, for any specification
+   keys) with four damage operators (stray closer, dropped closer, swapped closer, second root node); [damaged_long_key]
+   is the operator of the finding repaired by /repo 57aa316 (a flow-sequence pair whose key is longer than 1024 characters);
+   [damaged_known] is the operator of the one finding that is still open (a flow continuation line at the column of the
+   enclosing block key).  Every such text is ill-formed by construction.
+   NOT proved; refuted below ([C06_full_refuted]) by [damaged_known] alone.  The general form, for any specification
    [ill_formed] of ill-formed character streams (the damage operators of vlib/p_c06.py composed with its generator), is
    [C06_full_for]. *)
-Definition C06_full : Prop := forall s, damaged s \/ damaged_known s -> snd (run_str s) <> PDone.
+Definition C06_full : Prop :=
+  forall s, damaged s \/ damaged_long_key s \/ damaged_known s -> snd (run_str s) <> PDone.
 
-(* the bracket / second-root fragment alone: OPEN -- neither proved nor refuted any more (the stray closer behind an empty
-   explicit key that refuted it is repaired).  Missing for a proof: the scanner half for all rendered trees (the tokens
-   of [render_flow f] are the brackets of [f]); the parser half is [C06_accepted_implies_balanced]. *)
+(* the bracket / second-root fragment alone: OPEN -- neither proved nor refuted.  Missing for a proof: the scanner half for
+   all rendered trees (the tokens of [render_flow f] are the brackets of [f]); the parser half is
+   [C06_accepted_implies_balanced]. *)
 Definition C06_full_flow_fragment : Prop := forall s, damaged s -> snd (run_str s) <> PDone.
+
+(* the long-key fragment: PROVED -- every text of the operator of the finding repaired by /repo 57aa316 is rejected *)
+Theorem C06_full_long_key_fragment : forall s, damaged_long_key s -> snd (run_str s) <> PDone.
+Proof. exact damaged_long_key_rejected. Qed.
+Print Assumptions C06_full_long_key_fragment.
+
+(* the swapped-closer operator on every FLAT sequence of words (any number, any lengths): PROVED -- a first fragment of
+   [C06_full_flow_fragment] in which the rendered tree is symbolic *)
+Theorem C06_full_swap_flat_fragment : forall ws,
+  ws <> [] -> Forall lower_word ws ->
+  let f := WSeq (map WWord ws) in
+  damaged (removelast (render_flow f) ++ [other_closer (last (render_flow f) 0); 10])
+  /\ snd (run_str (removelast (render_flow f) ++ [other_closer (last (render_flow f) 0); 10])) <> PDone.
+Proof. exact swap_closer_flat_sequence_rejected. Qed.
+Print Assumptions C06_full_swap_flat_fragment.
 
 (* the proved part, for EVERY text: it is rejected as soon as its scan fails or its token stream is unbalanced *)
 Theorem C06_full_partial : forall s,
@@ -607,23 +865,29 @@ Theorem C06_full_refuted : ~ C06_full.
 Proof. exact C06_full_damaged_refuted. Qed.
 Print Assumptions C06_full_refuted.
 
-(* the two texts that are ill-formed by YAML 1.2.2 (productions quoted in known_findings_c06.jsonl) and still accepted *)
-Theorem C06_long_flow_pair_key_accepted :
-  damaged_known long_flow_pair_key_text /\ snd (run_str long_flow_pair_key_text) = PDone.
-Proof. exact (conj long_flow_pair_key_is_damaged long_flow_pair_key_accepted). Qed.
-Print Assumptions C06_long_flow_pair_key_accepted.
-
+(* the text that is ill-formed by YAML 1.2.2 (productions quoted in known_findings_c06.jsonl) and still accepted *)
 Theorem C06_flow_continuation_at_block_indentation_accepted :
   damaged_known flow_continuation_text /\ snd (run_str flow_continuation_text) = PDone.
 Proof. exact (conj flow_continuation_is_damaged flow_continuation_at_block_indentation_accepted). Qed.
 Print Assumptions C06_flow_continuation_at_block_indentation_accepted.
 
-Theorem C06_full_for_refuted : forall ill_formed,
-  ill_formed long_flow_pair_key_text \/ ill_formed flow_continuation_text -> ~ C06_full_for ill_formed.
+Theorem C06_full_for_refuted : forall ill_formed : list N -> Prop,
+  ill_formed flow_continuation_text -> ~ C06_full_for ill_formed.
 Proof. exact C06_full_for_refuted_by_known. Qed.
 Print Assumptions C06_full_for_refuted.
 
-(* the two texts recorded earlier as accepted, now rejected (regression witnesses of /repo c5ad60c and ad74b3e), with the
+(* the witness recorded earlier as accepted, "[ k^1025: v ]" (an element of [damaged_long_key]): rejected since /repo 57aa316
+   with the site and position the implementation reports; a key of exactly 1024 characters, and a 1025-character key of a
+   flow MAPPING (YAML 1.2.2 [147]: no limit), stay accepted -- the repair does not reject too much *)
+Theorem C06_long_flow_pair_key_text_rejected :
+  damaged_long_key long_flow_pair_key_text
+  /\ snd (run_str long_flow_pair_key_text) = PScanErr 98 {| m_index := 1027; m_line := 1; m_col := 1027 |}
+  /\ snd (run_str longest_flow_pair_key_text) = PDone
+  /\ snd (run_str long_flow_mapping_key_text) = PDone.
+Proof. exact (conj long_flow_pair_key_is_damaged (conj long_flow_pair_key_text_rejected (conj longest_flow_pair_key_accepted long_flow_mapping_key_accepted))). Qed.
+Print Assumptions C06_long_flow_pair_key_text_rejected.
+
+(* two more texts recorded earlier as accepted, now rejected (regression witnesses of /repo c5ad60c and ad74b3e), with the
    verdict, site and position the implementation reports; and the legal "[ ? ]" is accepted *)
 Theorem C06_stray_closer_rejected :
   snd (run_str stray_closer_text) = PParseErr 3 {| m_index := 6; m_line := 1; m_col := 6 |}.
@@ -668,16 +932,16 @@ Example rejects_open_flow_mapping :
   = PParseErr 11 {| m_index := 10; m_line := 2; m_col := 0 |}.
 Proof. vm_compute. reflexivity. Qed.
 
-(* implementation: while parsing a flow sequence, expected ',' or ']' *)
+(* implementation: while parsing a flow sequence, expected ',' or ']'  (a scan error since /repo 88700d3) *)
 Example rejects_mismatched_closer_seq :
   snd (run_str [91;97;44;32;98;125;10])
-  = PParseErr 7 {| m_index := 5; m_line := 1; m_col := 5 |}.
+  = PScanErr 48 {| m_index := 5; m_line := 1; m_col := 5 |}.
 Proof. vm_compute. reflexivity. Qed.
 
-(* implementation: while parsing a flow mapping, did not find expected ',' or '}' *)
+(* implementation: while parsing a flow mapping, did not find expected ',' or '}'  (a scan error since /repo 88700d3) *)
 Example rejects_mismatched_closer_map :
   snd (run_str [123;97;58;32;49;93;10])
-  = PParseErr 6 {| m_index := 5; m_line := 1; m_col := 5 |}.
+  = PScanErr 47 {| m_index := 5; m_line := 1; m_col := 5 |}.
 Proof. vm_compute. reflexivity. Qed.
 
 (* implementation: while parsing a block mapping, did not find expected key *)
@@ -840,3 +1104,55 @@ Qed.
 Example open_quoted_text_instance :
   snd (run_str (34 :: [97;92;110;10;45;45;45;32;39;98;39;10])) <> PDone.
 Proof. apply (C06_open_quoted_text_rejected false). unfold qfree, qchar. cbn. intuition discriminate. Qed.
+
+(* implementation: ':' must be followed by a valid YAML whitespace  (block context; S11) *)
+Example rejects_tab_after_colon_in_block :
+  snd (run_str [97;58;9;98;10])
+  = PScanErr 97 {| m_index := 3; m_line := 1; m_col := 3 |}.
+Proof. vm_compute. reflexivity. Qed.
+
+(* ... and since /repo b87c12b the same separation is accepted in flow context *)
+Example accepts_tab_after_colon_in_flow : snd (run_str [123;97;58;9;98;125;10]) = PDone.
+Proof. vm_compute. reflexivity. Qed.
+
+(* implementation: recursion limit exceeded  (S4; 256 x "- " then "a") *)
+Example rejects_deep_block_nesting :
+  snd (run_str (dashes 256 ++ [97;10])) = PScanErr 46 {| m_index := 511; m_line := 1; m_col := 511 |}.
+Proof. vm_compute. reflexivity. Qed.
+
+(* the hypotheses of S10 are satisfiable: the scanner state of "[ a }" at the '}' (one flow sequence open, state Possible),
+   with the verdict of [C06_mismatched_flow_closer_fetch_rejected] *)
+Example mismatched_closer_hypotheses_satisfiable :
+  let s : sc strin := {|
+    sc_in := {| si_chars := [125;10]; si_look := 128 |}; sc_mark := {| m_index := 4; m_line := 1; m_col := 4 |};
+    sc_tokens := []; sc_stream_start := true; sc_stream_end := false; sc_adjacent := 0; sc_ska := false;
+    sc_sks := [{| sk_possible := true; sk_required := false; sk_token_number := 2; sk_mark := {| m_index := 2; m_line := 1; m_col := 2 |} |};
+               {| sk_possible := true; sk_required := false; sk_token_number := 1; sk_mark := {| m_index := 0; m_line := 1; m_col := 0 |} |}];
+    sc_indent := (-1)%Z; sc_indents := []; sc_flow_level := 1; sc_tokens_parsed := 1;
+    sc_token_available := false; sc_lws := false; sc_ifms := [ImPossible] |} in
+  sc_ifms s = ImPossible :: [] /\ is_mapping_level ImPossible = false /\ sc_flow_level s <> 0
+  /\ sorted_from (sc_indent s) (sc_indents s) = true /\ (sc_indent s <= Z.of_N (m_col (sc_mark s)))%Z
+  /\ fetch_next_token str_ops 5 s = Err 48 {| m_index := 4; m_line := 1; m_col := 4 |}.
+Proof. cbv zeta. repeat split; try discriminate. Qed.
+
+(* instances of the text-level families: "[ a } ]" and "[ k^2000: v ]" *)
+Example wrong_closer_text_instance : snd (run_str ([91;32;97;32;125] ++ [32;93;10])) <> PDone.
+Proof. apply (C06_wrong_closer_text_rejected _ 48 {| m_index := 4; m_line := 1; m_col := 4 |}). cbn. tauto. Qed.
+
+Example long_flow_pair_key_family_instance :
+  snd (run_str ([91;32] ++ repeat 107 2000 ++ 58 :: 32 :: [118;32;93;10])) <> PDone.
+Proof.
+  apply C06_long_flow_pair_key_family_rejected.
+  - apply lower_word_repeat; [cbv; discriminate | cbv; discriminate | apply Nat.ltb_lt; vm_compute; reflexivity].
+  - rewrite repeat_length. apply Nat.ltb_lt. vm_compute. reflexivity.
+Qed.
+
+(* an instance of the flat-sequence family: "[ab, c, def}" NL *)
+Example flat_sequence_wrong_closer_instance :
+  snd (run_str (91 :: 97 :: [98] ++ flat_tail [(99, []); (100, [101; 102])] ++ 125 :: [10])) <> PDone.
+Proof.
+  apply C06_flat_sequence_wrong_closer_rejected.
+  - cbv; split; discriminate.
+  - repeat constructor; cbv; discriminate.
+  - repeat constructor; cbv; discriminate.
+Qed.
